@@ -42,9 +42,12 @@ KINDS_QUICK = [
     ("two_line_match", "foo(\n  6);", LF, 1, 1),
     ("multi_args", "foo(1, 'é'); foo();", LF, 0, 2),
 ]
-KINDS_THOROUGH = KINDS_QUICK + [
-    ("mb_crlf", "é; foo('\U0001F980');", CRLF, 1, 1),
+# thorough: <= 4 line kinds over KINDS_DEEP, united with <= 3 line kinds over KINDS_WIDE
+KINDS_DEEP = KINDS_QUICK + [
     ("two_on_line", "foo(7); é; foo(8);", LF, 2, 2),
+]
+KINDS_WIDE = KINDS_DEEP + [
+    ("mb_crlf", "é; foo('\U0001F980');", CRLF, 1, 1),
     ("long600_mb", LONG_MB_PREFIX + "foo(9);", LF, 1, 1),
 ]
 
@@ -396,10 +399,11 @@ def argv_of(mode):
     return a
 
 
-def enumerate_contents(kinds, maxlen):
+def enumerate_contents(kinds, maxlen, seen=None):
     """every sequence of <= maxlen line kinds X {final terminator, none}; deduplicated by content.
     returns list of (content str, (nA, nARGS), description)"""
-    seen, out = set(), []
+    seen = set() if seen is None else seen
+    out = []
     for n in range(1, maxlen + 1):
         for seq in itertools.product(range(len(kinds)), repeat=n):
             for trailing in (True, False):
@@ -563,10 +567,9 @@ def main(argv):
     if args["replay"]:
         return replay(args, rep, binary)
     thorough = args["tier"] == "thorough"
-    kinds = KINDS_THOROUGH if thorough else KINDS_QUICK
-    maxlen = 4 if thorough else 3
+    spaces = [(KINDS_DEEP, 4), (KINDS_WIDE, 3)] if thorough else [(KINDS_QUICK, 3)]
     maxfiles = 4 if thorough else 3
-    per_dir = 250 if thorough else 52
+    per_dir = 250 if thorough else 100
 
     root = vlib.scratch("c16")
     rules = os.path.join(root, "rules")
@@ -575,7 +578,11 @@ def main(argv):
     modes = all_modes(contexts)
     modes_b = [m for m in modes if tuple(m["ctx"]) == (0, 0) and not m["flags"]]
 
-    contents = enumerate_contents(kinds, maxlen)
+    seen_contents = set()
+    contents = []
+    for kinds, maxlen in spaces:
+        contents += enumerate_contents(kinds, maxlen, seen_contents)
+    space_text = " united with ".join("every sequence of <= %d line kinds from %s" % (m, [k[0] for k in ks]) for ks, m in spaces)
     groups_a = []
     for gi in range(0, len(contents), per_dir):
         chunk = contents[gi:gi + per_dir]
@@ -619,7 +626,7 @@ def main(argv):
     coverage = {
         "evaluations": total["runs"],
         "distinct_nontrivial": total["nontrivial_pairs"],
-        "rule": ("content sweep: every sequence of <= %d line kinds from %s, with and without a final line terminator "
+        "rule": ("content sweep: %s, with and without a final line terminator "
                  "(deduplicated by content: %d files, batched %d per CLI run) X every mode (%d: {foo($A), foo($$$ARGS), "
                  "foo($A) -r bar($A)} X 3 JSON styles X 11 context settings [-B/-A in {0,1,2}^2, -C 1, -C 2]; scan -r with "
                  "string fix / expandEnd fix X 3 styles; plain report --color never --heading never for 2 patterns X 11 "
@@ -627,10 +634,11 @@ def main(argv):
                  "two matches, no match} (%d directories) X %d modes without context. A (file, mode) pair is non-trivial "
                  "when the file has >= 1 expected match for the mode's pattern and contains a multi-byte character, a CRLF, "
                  "a >= 600 column line or a match spanning two lines.")
-                % (maxlen, [k[0] for k in kinds], len(contents), per_dir, len(modes), maxfiles, len(groups_b), len(modes_b)),
+                % (space_text, len(contents), per_dir, len(modes), maxfiles, len(groups_b), len(modes_b)),
         "exhaustive": True,
         "samples": samples,
-        "bounds": {"line_kinds": [k[0] for k in kinds], "max_line_kinds_per_file": maxlen, "file_contents": len(contents),
+        "bounds": {"content_spaces": [{"line_kinds": [k[0] for k in ks], "max_line_kinds_per_file": m} for ks, m in spaces],
+                   "file_contents": len(contents),
                    "modes": len(modes), "count_sweep_directories": len(groups_b), "count_sweep_modes": len(modes_b),
                    "max_files_in_count_sweep": maxfiles},
         "records_judged": total["records"],
